@@ -5,7 +5,7 @@ from multiprocessing import Pool
 import vlib, corpus
 
 CACHE = os.path.join(vlib.VERIF, "cache")
-FLAGS = ["wf", "replay", "c01", "c01_strict", "paren", "lenpres", "c02", "c02_rem", "layout", "case", "ident", "same_count", "cterm", "wsadj", "kinds", "shape", "glue"]
+FLAGS = ["wf", "replay", "c01", "c01_strict", "paren", "lenpres", "c02", "c02_rem", "layout", "case", "ident", "same_count", "cterm", "wsadj", "kinds", "shape", "glue", "c02_trail"]
 
 
 def machinery_hash():
